@@ -18,6 +18,7 @@ import NumqiProofs.CliffordSuccess
 import NumqiProofs.CliffordExtract
 import NumqiProofs.CliffordAuto
 import NumqiProofs.CliffordRand
+import NumqiProofs.CliffordExport
 import Mathlib.Analysis.Real.Sqrt
 import Mathlib.Data.Complex.Basic
 
@@ -233,6 +234,55 @@ theorem circuit_conjugation_toUnitary {I : R} (hI : I * I = -1) (h : R) (gates :
         ∀ p : PauliB, p.v < 4 ^ n →
           PM n I p * Matrix.of (toUnitary ops) = Matrix.of (toUnitary ops) * PM n I (applyOnPauli p t) :=
   Clifford.circuit_conjugation_toUnitary hI h gates hwf t ht
+
+/-- **the export the driver executes** (`exportRawG`, over ℤ[i] with the unnormalised `H` array, op `exportraw`) **is the
+ring-generic `exportRaw` at `R = ℤ[i]`, `I = i`, `h = 1`** — so the two theorems above, read at that ring, are statements about
+the executed constant: -/
+theorem export_executed_eq (g : Gate) : exportRaw GInt.I (1 : GInt) g = exportRawG g := exportRaw_GInt g
+
+/-- **the executed export is accepted by C03's index resolution** on `numQubit` qubits (the `true` the driver prints) -/
+theorem export_compiles_executed (gates : List Gate) (hwf : GatesWF gates) (n : Nat) (hn : Clifford.numQubit gates = .ok n) :
+    (compileCircuit n (gates.map exportRawG)).isSome = true := by
+  obtain ⟨ops, h⟩ := export_compiles GInt.I (1 : GInt) gates hwf n hn
+  have e : gates.map (exportRaw GInt.I (1 : GInt)) = gates.map exportRawG := List.map_congr_left (fun g _ => exportRaw_GInt g)
+  rw [e] at h
+  rw [h]; rfl
+
+/-- **… and C03's `toUnitary` of the executed export conjugates every Pauli to the simulator's answer** (over ℤ[i]; the
+unnormalised `H` only scales `U`, which cancels in `P·U = U·P'`) -/
+theorem circuit_conjugation_executed_export (gates : List Gate) (hwf : GatesWF gates) (t : Tab) (ht : symplecticOf gates = .ok t) :
+    ∃ n, Clifford.numQubit gates = .ok n ∧ t.n = n ∧
+      ∀ ops : List (Numqi.Op n GInt), compileCircuit n (gates.map exportRawG) = some ops →
+        ∀ p : PauliB, p.v < 4 ^ n →
+          PM n GInt.I p * Matrix.of (toUnitary ops) = Matrix.of (toUnitary ops) * PM n GInt.I (applyOnPauli p t) := by
+  obtain ⟨n, h1, h2, h3⟩ := Clifford.circuit_conjugation_toUnitary GInt.I_mul_I (1 : GInt) gates hwf t ht
+  refine ⟨n, h1, h2, fun ops hc => h3 ops ?_⟩
+  have e : gates.map (exportRaw GInt.I (1 : GInt)) = gates.map exportRawG := List.map_congr_left (fun g _ => exportRaw_GInt g)
+  rw [e]; exact hc
+
+/-! ### `random_one_qubit_gate` / `random_two_qubit_gate`: a scripted raw draw selects an ordinary method call -/
+
+/-- the op a random call performs is the no-op `I` or an ordinary one-qubit append … -/
+theorem random_one_is_method_call (k : Nat) (q : Int) :
+    randomOneOp k q = .gateI ∨ ∃ key : GateKey, key.arity = 1 ∧ randomOneOp k q = .append key [q] := randomOneOp_cases k q
+
+/-- … a successful draw `1 ≤ k < 6` records `_single_gate_list[k]` on the qubit **and drops the cache** -/
+theorem random_one_records (st : St) (k : Nat) (hk1 : 1 ≤ k) (hk : k < 6) (q : Nat) :
+    ∃ key, singleGateList.getD k none = some key ∧
+      step st (randomOneOp k (q : Int)) = ({ gates := st.gates ++ [⟨key, [q]⟩], cache := none }, .unit) :=
+  randomOneOp_records st k hk1 hk q
+
+/-- the two-qubit version is an ordinary two-qubit append; its early `assert index0 != index1` has the recorder's outcome -/
+theorem random_two_is_method_call (k : Nat) (a b : Int) :
+    (∃ key : GateKey, key.arity = 2 ∧ randomTwoOp k a b = .append key [a, b])
+    ∧ ∀ st : St, step st (randomTwoOp k a a) = (st, .err .assert) :=
+  ⟨randomTwoOp_is_append k a b, fun st => randomTwoOp_equal_indices st k a⟩
+
+/-- **`history_independent` covers the random-gate methods**: histories whose calls are ordinary ops, `random_one_qubit_gate`
+(draw, index) or `random_two_qubit_gate` (draw, indices), in any order -/
+theorem history_independent_random (calls : List (Clifford.Op ⊕ (Nat × Int) ⊕ (Nat × Int × Int))) :
+    let ops := calls.map (Sum.elim id (Sum.elim (fun x => randomOneOp x.1 x.2) (fun x => randomTwoOp x.1 x.2.1 x.2.2)))
+    run St.init ops = specRun [] ops := history_independent _
 
 /-- the unitary of the exported circuit is unitary (star ring, `star I = −I`, `h` real with `2h² = 1`) -/
 theorem circuit_unitary_is_unitary [StarRing R] {I h : R} (hI : I * I = -1) (hs : star I = -I) (hh : star h = h)
